@@ -10,6 +10,16 @@ checked with exact ranks on every case.  An independent Python oracle (union-fin
 reachability) and the Lean command `spec.def.check` (right-hand sides of the theorems, evaluated
 by a transitive-closure computation unrelated to the model's algorithms) decide whether a
 difference is a violation of the property or only of the correspondence.
+
+Sessions (streams `session-replace`, `session-random`): the same comparison after HISTORIES — one
+analyzer reused after the referenced `CRNHyperGraph` / bipartite DiGraph was edited in place (most
+edits keep (n_species, n_reactions), the ids, or the stoichiometric matrix), several analyzers on one
+network, copies of analysed networks, compute_summary / compute_linkage_deficiencies /
+run_deficiency_one_algorithm / compute_crn_deficiency(run_nondegeneracy=...) / accessors in any order,
+non-default `stoich_fn` / `rank_fn`, and the documented alternative spellings of a bipartite graph
+(`kind` only, `bipartite` flag only, missing `stoich` = 1, float `stoich`, integer node ids, label-less
+species).  The model side of every query is computed from the description of the network at that
+moment only.  `as_dict()` agreeing with the summary is part of the comparison.
 """
 import itertools
 import json
@@ -34,6 +44,11 @@ THEOREMS = [
     "SynKit.NetGraphAlg.reachSet_complete_of_closed",
     "SynKit.NetGraphAlg.reachSet_closed_of_fuel",
     "SynKit.NetGraphAlg.stronglyConnected_iff",
+    "SynKit.Deficiency.stoich_rank_le",
+    "SynKit.Deficiency.stoich_rank_le_sum_class_ranks",
+    "SynKit.Deficiency.deficiency_nonneg",
+    "SynKit.Deficiency.linkage_deficiency_sum_le",
+    "SynKit.Deficiency.full",
 ]
 
 
@@ -111,15 +126,10 @@ def oracle(desc):
 
 
 # ---------------------------------------------------------------- implementation adapter
-def impl_analyse(desc):
+def observe(an):
+    """What an analyzer currently reports (its own complex list / complex graph / summary / per-class list)."""
     import networkx as nx
-    from synkit.CRN.Props.deficiency import DeficiencyAnalyzer
 
-    H = netio.to_hypergraph(desc)
-    try:
-        an = DeficiencyAnalyzer(H).compute_crn_deficiency()
-    except ValueError:
-        return {"error": "ValueError"}
     cs = [tuple(int(x) for x in c) for c in an._complexes]
     CG = an._complex_graph
     comps = [sorted(c) for c in nx.connected_components(CG.to_undirected())]
@@ -128,10 +138,22 @@ def impl_analyse(desc):
     summ = {"n_species": int(s.n_species), "n_reactions": int(s.n_reactions), "n_complexes": int(s.n_complexes),
             "n_linkage_classes": int(s.n_linkage_classes), "stoich_rank": int(s.stoich_rank),
             "deficiency": int(s.deficiency), "weakly_reversible": bool(s.weakly_reversible)}
+    lds = an.linkage_deficiencies
     return {"complexes": cs, "arcs": sorted([int(u), int(v)] for u, v in CG.edges()), "nodes": sorted(int(x) for x in CG.nodes()),
             "classes": comps, "summary": summ, "as_dict_agrees": all(d.get(k) == v for k, v in summ.items()),
-            "linkage_deficiencies": [int(x) for x in an.linkage_deficiencies],
+            "linkage_deficiencies": [int(x) for x in (lds or [])],
             "as_dict_linkage": [int(x) for x in d.get("linkage_deficiencies", [])]}
+
+
+def impl_analyse(desc):
+    from synkit.CRN.Props.deficiency import DeficiencyAnalyzer
+
+    H = netio.to_hypergraph(desc)
+    try:
+        an = DeficiencyAnalyzer(H).compute_crn_deficiency()
+    except ValueError:
+        return {"error": "ValueError"}
+    return observe(an)
 
 
 def canon(res):
@@ -145,13 +167,17 @@ def canon(res):
             "arcs": sorted((cs[u], cs[v]) for u, v in res["arcs"]),
             "classes": sorted(sorted(C) for C in classes),
             "summary": res["summary"],
+            # as_dict() is the second observation point of the property: it must carry the same numbers
+            "as_dict_summary": bool(res.get("as_dict_agrees", True)),
+            "as_dict_linkage": res.get("as_dict_linkage", lds) == lds,
             "linkage": sorted((sorted(C), d) for C, d in zip(classes, lds)) if len(lds) == len(classes) else "length-mismatch"}
 
 
-def diff(ci, cm):
+def diff(ci, cm, linkage=True):
+    """`linkage=False`: the per-class list is not looked at (a session query that only recomputed the summary)."""
     if ("error" in ci) or ("error" in cm):
         return None if ci == cm else f"impl={ci} model={cm}"
-    for k in ("complexes", "dup", "arcs", "classes", "linkage"):
+    for k in ("complexes", "dup", "arcs", "classes", "as_dict_summary") + (("linkage", "as_dict_linkage") if linkage else ()):
         if ci[k] != cm[k]:
             return f"{k}: impl={ci[k]} model={cm[k]}"
     for k, v in cm["summary"].items():
@@ -160,31 +186,50 @@ def diff(ci, cm):
     return None
 
 
-def spec_check(ctx, desc, impl):
-    """-> None when the implementation's answer satisfies C19 on this input, else a description."""
-    o = oracle(desc)
-    if "error" in impl or "error" in o:
-        return None if ("error" in impl) == ("error" in o) else f"impl={impl.get('error', 'result')} definition={o.get('error', 'result')}"
+def spec_lean(ctx, desc, impl):
+    """The right-hand sides of complexes_spec / linkage_spec / weakrev_spec on the reported data (Lean)."""
     rep = ctx.lean().ok([{"cmd": "spec.def.check", "net": netio.to_net_json(desc), "complexes": [list(c) for c in impl["complexes"]],
                           "arcs": impl["arcs"], "classes": impl["classes"], "weakly_reversible": impl["summary"]["weakly_reversible"]}])[0]
     if not rep["holds"]:
         bad = [k for k in ("complexes_ok", "arcs_ok", "classes_ok", "weakrev_ok") if not rep[k]]
         return f"Lean specification rejects the reported {', '.join(bad)} (complexes={impl['complexes']}, classes={impl['classes']}, weakly_reversible={impl['summary']['weakly_reversible']})"
+    return None
+
+
+def spec_numbers(o, impl, linkage=True):
+    """The numbers against the definition oracle `o`, the two inequalities, as_dict()."""
     s = impl["summary"]
     for k in ("n_species", "n_reactions", "n_complexes", "n_linkage_classes", "stoich_rank", "deficiency", "weakly_reversible"):
         if s[k] != o[k]:
             return f"{k} = {s[k]}, the definition gives {o[k]}"
     if s["deficiency"] < 0:
         return f"negative deficiency {s['deficiency']}"
+    if not impl["as_dict_agrees"]:
+        return "as_dict() differs from the summary object"
+    if not linkage:
+        return None
     cs = impl["complexes"]
+    if len(impl["classes"]) != len(impl["linkage_deficiencies"]):
+        return f"{len(impl['linkage_deficiencies'])} linkage-class deficiencies for {len(impl['classes'])} linkage classes"
     got = {frozenset(cs[i] for i in C): d for C, d in zip(impl["classes"], impl["linkage_deficiencies"])}
     if got != o["linkage"]:
-        return f"linkage-class deficiencies {sorted(got.values())}, the definition gives {sorted(o['linkage'].values())}"
+        return (f"linkage-class deficiencies {sorted((sorted(C), d) for C, d in got.items())}, "
+                f"the definition gives {sorted((sorted(C), d) for C, d in o['linkage'].items())}")
     if sum(got.values()) > s["deficiency"]:
         return f"linkage-class deficiencies sum to {sum(got.values())} > deficiency {s['deficiency']}"
-    if not impl["as_dict_agrees"] or impl["as_dict_linkage"] != impl["linkage_deficiencies"]:
+    if impl["as_dict_linkage"] != impl["linkage_deficiencies"]:
         return "as_dict() differs from the summary object"
     return None
+
+
+def spec_check(ctx, desc, impl, linkage=True, numbers_first=False):
+    """-> None when the implementation's answer satisfies C19 on this input, else a description."""
+    o = oracle(desc)
+    if "error" in impl or "error" in o:
+        return None if impl.get("error") == o.get("error") else f"impl={impl.get('error', 'result')} definition={o.get('error', 'result')}"
+    if numbers_first:
+        return spec_numbers(o, impl, linkage) or spec_lean(ctx, desc, impl)
+    return spec_lean(ctx, desc, impl) or spec_numbers(o, impl, linkage)
 
 
 def run_cases(ctx, descs, tag):
@@ -361,6 +406,635 @@ TEXTBOOK = [
 ]
 
 
+# ================================================================ sessions (hidden state between calls)
+# A session is a replayable JSON value: one or more networks (a `CRNHyperGraph` edited through its
+# public API, or a hand-built bipartite DiGraph edited in place), analyzers constructed on them at
+# various moments with various options, and queries in any order.  The specification side is computed
+# from the network description AT THE TIME OF THE QUERY only (the Lean model is a pure function of
+# the network), so whatever an analyzer, the class or the module remembers cannot influence it.
+#
+#   {"kind": "hyper" | "bip", "flavor": {...}, "init": desc,
+#    "steps": [{"op": "an", "name": "a0", "net": "n0", "opt": "default"},
+#              {"op": "q", "an": "a0", "m": "crn"},
+#              {"op": "rm", "net": "n0", "id": "r_2"}, {"op": "add", "net": "n0", "rxn": {...}},
+#              {"op": "set", "net": "n0", "rxn": {...}},          # replace the reaction with this id, in place
+#              {"op": "iso", "net": "n0", "sp": "Z"}, {"op": "rmsp", "net": "n0", "sp": "Z"},
+#              {"op": "fork", "net": "n0", "as": "n1"}, ...]}
+#
+# What is gated after a query: the analyzer's state is claimed to describe the CURRENT network only as
+# far as the documented call protocol makes it so: the summary / complex list / complex graph when the
+# last successful compute_summary() of this analyzer ran on the current version of its network, the
+# per-class list when additionally the last compute_linkage_deficiencies() used that complex graph.
+# Calls whose result is stale by the protocol itself (compute_linkage_deficiencies() alone after an
+# edit, run_deficiency_one_algorithm() on old numbers) are made, but nothing is demanded of them.
+OPTS = ("default", "stoich_none", "stoich_list", "rank_lambda")
+SUMMARY_METHODS = ("crn", "crn_nd", "summary", "summary_linkage")
+METHODS = SUMMARY_METHODS + ("linkage", "one", "peek")
+
+
+class InvalidSession(Exception):
+    pass
+
+
+def _copy_rxn(r):
+    return {"id": r["id"], "rule": r.get("rule") or "r", "r": [[s, int(c)] for s, c in r["r"]], "p": [[s, int(c)] for s, c in r["p"]]}
+
+
+def _used(desc):
+    return {s for r in desc["reactions"] for side in ("r", "p") for s, _ in r[side]}
+
+
+def _rxn_ok(r):
+    for side in ("r", "p"):
+        keys = [s for s, _ in r[side]]
+        if len(set(keys)) != len(keys) or any(int(c) <= 0 for _, c in r[side]):
+            return False
+    return bool(r["r"] or r["p"])
+
+
+def apply_desc(kind, desc, op):
+    """The effect of an edit on the description (pure bookkeeping, shared by generator and executor).
+    hyper: `isolated` = species kept in the store without a reaction; remove_rxn prunes orphans.
+    bip:   `isolated` = every species node of the graph (nodes never disappear by themselves)."""
+    rs = desc["reactions"]
+    ids = [r["id"] for r in rs]
+    o = op["op"]
+    if o in ("add", "set"):
+        r = _copy_rxn(op["rxn"])
+        if not _rxn_ok(r):
+            raise InvalidSession("malformed reaction")
+        if o == "add":
+            if r["id"] in ids:
+                raise InvalidSession("duplicate id")
+            rs.append(r)
+        else:
+            if r["id"] not in ids:
+                raise InvalidSession("unknown id")
+            if kind == "hyper":  # remove_rxn + add_rxn: the edge moves to the end of the store
+                old = rs.pop(ids.index(r["id"]))
+                rs.append(r)
+                gone = {s for side in ("r", "p") for s, _ in old[side]} - _used(desc)
+                desc["isolated"] = [s for s in desc["isolated"] if s not in gone]
+            else:
+                rs[ids.index(r["id"])] = r
+        if kind == "bip":
+            for side in ("r", "p"):
+                for s, _ in r[side]:
+                    if s not in desc["isolated"]:
+                        desc["isolated"].append(s)
+    elif o == "rm":
+        if op["id"] not in ids:
+            raise InvalidSession("unknown id")
+        old = rs.pop(ids.index(op["id"]))
+        if kind == "hyper":
+            gone = {s for side in ("r", "p") for s, _ in old[side]} - _used(desc)
+            desc["isolated"] = [s for s in desc["isolated"] if s not in gone]
+    elif o == "iso":
+        if op["sp"] in desc["isolated"] or op["sp"] in _used(desc):
+            raise InvalidSession("species exists")
+        desc["isolated"].append(op["sp"])
+    elif o == "rmsp":
+        if kind != "bip" or op["sp"] not in desc["isolated"] or op["sp"] in _used(desc):
+            raise InvalidSession("species not removable")
+        desc["isolated"].remove(op["sp"])
+    else:
+        raise InvalidSession("unknown edit " + str(o))
+
+
+class _Net:
+    """A live network object plus the harness's own description of it."""
+
+    def __init__(self, kind, flavor):
+        self.kind, self.flavor, self.ver = kind, dict(flavor or {}), 0
+        self.desc = {"reactions": [], "isolated": []}
+        self.spnode, self.rnode, self.counter = {}, {}, 0
+        if kind == "hyper":
+            from synkit.CRN.Hypergraph.hypergraph import CRNHyperGraph
+            self.obj = CRNHyperGraph()
+        else:
+            import networkx as nx
+            self.obj = nx.DiGraph()
+
+    def fork(self):
+        import copy
+        n = _Net.__new__(_Net)
+        n.kind, n.flavor, n.ver = self.kind, dict(self.flavor), 0
+        n.desc = copy.deepcopy(self.desc)
+        n.spnode, n.rnode, n.counter = dict(self.spnode), dict(self.rnode), self.counter
+        n.obj = self.obj.copy()
+        return n
+
+    # ---- bipartite graph details (all variants are documented spellings of the same network)
+    def _sp(self, s):
+        if s not in self.spnode:
+            f = self.flavor
+            if f.get("intid"):
+                node, self.counter = self.counter, self.counter + 1
+            elif f.get("nolabel"):
+                node = s
+            else:
+                node = "S:" + s
+            attrs = {"kind": "species", "bipartite": 0}
+            if f.get("mark") == "kind":
+                del attrs["bipartite"]
+            elif f.get("mark") == "flag":
+                del attrs["kind"]
+            if not (f.get("nolabel") and not f.get("intid")):
+                attrs["label"] = s
+            self.obj.add_node(node, **attrs)
+            self.spnode[s] = node
+        return self.spnode[s]
+
+    def _arcs(self, rn, r):
+        f = self.flavor
+        for side, role in (("r", "reactant"), ("p", "product")):
+            for s, c in r[side]:
+                attrs = {"role": role}
+                if not (f.get("omit1") and int(c) == 1):
+                    attrs["stoich"] = float(c) if f.get("float") else int(c)
+                u = self._sp(s)
+                if role == "reactant":
+                    self.obj.add_edge(u, rn, **attrs)
+                else:
+                    self.obj.add_edge(rn, u, **attrs)
+
+    def edit(self, op):
+        before = json.dumps(self.desc, sort_keys=True)
+        apply_desc(self.kind, self.desc, op)  # raises InvalidSession before anything is touched
+        o = op["op"]
+        if self.kind == "hyper":
+            H = self.obj
+            if o in ("rm", "set"):
+                H.remove_rxn(op["id"] if o == "rm" else op["rxn"]["id"])
+            if o in ("add", "set"):
+                r = op["rxn"]
+                H.add_rxn(dict((s, int(c)) for s, c in r["r"]), dict((s, int(c)) for s, c in r["p"]), rule=r.get("rule"), edge_id=r["id"])
+            if o == "iso":
+                H.add_rxn({op["sp"]: 1}, {}, edge_id=f"__iso_{self.counter}")
+                self.counter += 1
+                H.remove_species(op["sp"], prune_orphans=False)
+        else:
+            G = self.obj
+            if o == "rm":
+                G.remove_node(self.rnode.pop(op["id"]))
+            elif o == "add":
+                r = op["rxn"]
+                if self.flavor.get("intid"):
+                    rn, self.counter = self.counter, self.counter + 1
+                else:
+                    rn = "R:" + r["id"]
+                attrs = {"kind": "reaction", "bipartite": 1, "label": r.get("rule") or "r"}
+                if self.flavor.get("mark") == "kind":
+                    del attrs["bipartite"]
+                elif self.flavor.get("mark") == "flag":
+                    del attrs["kind"]
+                G.add_node(rn, **attrs)
+                self.rnode[r["id"]] = rn
+                self._arcs(rn, r)
+            elif o == "set":
+                rn = self.rnode[op["rxn"]["id"]]
+                G.remove_edges_from(list(G.in_edges(rn)) + list(G.out_edges(rn)))
+                G.nodes[rn]["label"] = op["rxn"].get("rule") or "r"
+                self._arcs(rn, op["rxn"])
+            elif o == "iso":
+                self._sp(op["sp"])
+            elif o == "rmsp":
+                G.remove_node(self.spnode.pop(op["sp"]))
+        if json.dumps(self.desc, sort_keys=True) != before:
+            self.ver += 1
+
+    def net_json(self):
+        return netio.to_net_json_raw(self.desc) if self.kind == "bip" else netio.to_net_json(self.desc)
+
+    def check_encoding(self):
+        """The description is what the implementation's own view of the live object shows (harness assumption)."""
+        if not self.desc["reactions"]:
+            return None
+        if self.kind == "hyper":
+            return netio.check_encoding(self.desc, self.obj)
+        from synkit.CRN.Props.utils import _species_order, _split_species_reactions
+        G, net = self.obj, self.net_json()
+        _, labels, _ = _species_order(G)
+        if list(labels) != net["species"]:
+            return f"species order {labels} != {net['species']}"
+        lab = {v: k for k, v in self.spnode.items()}
+        got = []
+        for rn in _split_species_reactions(G)[1]:
+            got.append([sorted([lab[u], int(d.get("stoich", 1))] for u, _, d in G.in_edges(rn, data=True)),
+                        sorted([lab[v], int(d.get("stoich", 1))] for _, v, d in G.out_edges(rn, data=True))])
+        want = [[sorted(r["r"]), sorted(r["p"])] for r in net["reactions"]]
+        return None if got == want else f"reaction nodes {got} != {want}"
+
+
+def _make_analyzer(obj, opt):
+    import numpy as np
+    from synkit.CRN.Props.deficiency import DeficiencyAnalyzer
+    from synkit.CRN.Props.stoich import stoichiometric_matrix
+
+    if opt == "default":
+        return DeficiencyAnalyzer(obj)
+    if opt == "stoich_none":
+        return DeficiencyAnalyzer(obj, stoich_fn=None)
+    if opt == "stoich_list":
+        return DeficiencyAnalyzer(obj, stoich_fn=lambda g: stoichiometric_matrix(g).tolist())
+    if opt == "rank_lambda":
+        return DeficiencyAnalyzer(obj, rank_fn=lambda g: int(np.linalg.matrix_rank(stoichiometric_matrix(g))))
+    raise InvalidSession("unknown option " + str(opt))
+
+
+def exec_session(sess):
+    """Run the session against the implementation.  -> list of observations, one per gated query:
+    {"step", "an", "m", "opt", "kind", "desc", "net", "impl", "linkage", "enc", "reused", "same_shape"}."""
+    import copy
+
+    nets = {"n0": _Net(sess["kind"], sess.get("flavor"))}
+    for r in sess["init"]["reactions"]:
+        nets["n0"].edit({"op": "add", "rxn": r})
+    for s in sess["init"].get("isolated", []):
+        if s not in nets["n0"].desc["isolated"] and s not in _used(nets["n0"].desc):
+            nets["n0"].edit({"op": "iso", "sp": s})
+    nets["n0"].ver = 0
+    ans = {}
+    out = []
+    for k, op in enumerate(sess["steps"]):
+        o = op["op"]
+        if o == "an":
+            if op["net"] not in nets or op["name"] in ans:
+                raise InvalidSession("an")
+            ans[op["name"]] = {"an": _make_analyzer(nets[op["net"]].obj, op.get("opt", "default")), "net": nets[op["net"]],
+                               "opt": op.get("opt", "default"), "sum_ver": None, "link_ver": None, "shape": None}
+        elif o == "fork":
+            if op["net"] not in nets or op["as"] in nets:
+                raise InvalidSession("fork")
+            nets[op["as"]] = nets[op["net"]].fork()
+        elif o == "q":
+            if op["an"] not in ans:
+                raise InvalidSession("unknown analyzer")
+            a = ans[op["an"]]
+            an, net, m = a["an"], a["net"], op["m"]
+            if m not in METHODS or (m == "crn_nd" and a["opt"] == "stoich_none"):
+                raise InvalidSession("method")
+            computes = m in SUMMARY_METHODS or (m == "one" and a["sum_ver"] is None)
+            valid_before = a["sum_ver"] == net.ver
+            err = None
+            try:
+                if m == "crn":
+                    an.compute_crn_deficiency()
+                elif m == "crn_nd":
+                    an.compute_crn_deficiency(run_nondegeneracy=True)
+                elif m == "summary":
+                    an.compute_summary()
+                elif m == "summary_linkage":
+                    an.compute_summary().compute_linkage_deficiencies()
+                elif m == "linkage":
+                    an.compute_linkage_deficiencies()
+                elif m == "one":
+                    an.run_deficiency_one_algorithm()
+                else:  # accessors: must not change anything
+                    an.as_dict(), an.explain(), repr(an), an.deficiency_one_structural
+                    if an.summary is not None:
+                        an.check_deficiency_zero(), an.check_regularity()
+            except Exception as e:  # noqa: BLE001 - any exception is an observation
+                err = type(e).__name__
+            n_sp = len(net.net_json()["species"])
+            shape = (n_sp, len(net.desc["reactions"]))
+            reused = a["sum_ver"] is not None and a["sum_ver"] != net.ver
+            if err is not None:
+                if not (computes or valid_before):
+                    continue  # documented precondition failures of calls on stale / missing state: nothing demanded
+                obs_impl, linkage = {"error": err}, True
+            else:
+                if computes:
+                    a["sum_ver"] = net.ver
+                    if m != "summary":
+                        a["link_ver"] = net.ver
+                elif m == "linkage" or (m == "one" and a["link_ver"] is None):
+                    a["link_ver"] = a["sum_ver"]
+                if a["sum_ver"] != net.ver:
+                    continue
+                obs_impl, linkage = observe(an), a["link_ver"] == net.ver
+            out.append({"step": k, "an": op["an"], "m": m, "opt": a["opt"], "kind": net.kind, "desc": copy.deepcopy(net.desc),
+                        "net": net.net_json(), "impl": obs_impl, "linkage": linkage, "enc": net.check_encoding(),
+                        "reused": reused and computes, "same_shape": reused and computes and a["shape"] == shape})
+            if err is None and computes:
+                a["shape"] = shape
+        else:
+            if op.get("net") not in nets:
+                raise InvalidSession("unknown net")
+            nets[op["net"]].edit(op)
+    return out
+
+
+def lean_models(ctx, nets):
+    """def.analyse with exact ranks for a list of network JSONs (deduplicated) -> {key: model dict} or None after a harness alarm."""
+    uniq = {}
+    for n in nets:
+        uniq.setdefault(json.dumps(n, sort_keys=True), n)
+    keys = list(uniq)
+    ph1 = ctx.lean().ok([{"cmd": "def.analyse", "net": uniq[k]} for k in keys], shards=8)
+    reqs = []
+    for k, m in zip(keys, ph1):
+        n = uniq[k]
+        S = [[dict(map(tuple, r["p"])).get(s, 0) - dict(map(tuple, r["r"])).get(s, 0) for r in n["reactions"]] for s in n["species"]]
+        if S != m["stoich_rows"] or not m["stable"]:
+            ctx.violation("model stoichiometric matrix / reach-set stabilisation check failed on a session network", n,
+                          {"model": m["stoich_rows"], "own": S, "stable": m["stable"]}, no_input=True)
+            return None
+        reqs.append({"cmd": "def.analyse", "net": n, "rank": exact_rank(S), "class_ranks": [exact_rank(x) for x in m["class_diffs"]]})
+    out = {}
+    for k, m in zip(keys, ctx.lean().ok(reqs, shards=8)):
+        out[k] = {"error": m["error"]} if "error" in m else {
+            "complexes": [tuple(c) for c in m["complexes"]], "arcs": m["arcs"], "classes": m["classes"],
+            "summary": m["summary"], "linkage_deficiencies": m["linkage_deficiencies"]}
+    return out
+
+
+def session_failure(ctx, sess):
+    """-> (observation, message) of the first gated query whose answer violates the specification, else None."""
+    try:
+        obs = exec_session(sess)
+    except Exception:  # noqa: BLE001 - an invalid candidate of the shrinker
+        return None
+    for ob in obs:
+        if ob["enc"] is not None:
+            return None
+        msg = spec_check(ctx, ob["desc"], ob["impl"], linkage=ob["linkage"], numbers_first=True)
+        if msg is not None:
+            return ob, msg
+    return None
+
+
+def fmt_session(sess):
+    lines = [f"{sess['kind']} network n0 = {{{netio.fmt(sess['init'])}}}" + (f" flavor={sess['flavor']}" if sess.get("flavor") else "")]
+    for op in sess["steps"]:
+        o = op["op"]
+        if o == "an":
+            lines.append(f"{op['name']} = DeficiencyAnalyzer({op['net']}) [{op.get('opt', 'default')}]")
+        elif o == "q":
+            lines.append(f"{op['an']}.{op['m']}()")
+        elif o in ("add", "set"):
+            lines.append(f"{op['net']}: {o} {netio.fmt({'reactions': [op['rxn']]})}")
+        elif o == "rm":
+            lines.append(f"{op['net']}: remove {op['id']}")
+        elif o == "fork":
+            lines.append(f"{op['as']} = copy of {op['net']}")
+        else:
+            lines.append(f"{op['net']}: {o} {op['sp']}")
+    return lines
+
+
+def shrink_session(ctx, sess):
+    def fails_steps(steps):
+        return session_failure(ctx, dict(sess, steps=steps)) is not None
+    small = dict(sess, steps=shrink_seq(sess["steps"], fails_steps, budget=120))
+
+    def fails_init(rs):
+        return session_failure(ctx, dict(small, init=dict(small["init"], reactions=rs))) is not None
+    small = dict(small, init=dict(small["init"], reactions=shrink_seq(small["init"]["reactions"], fails_init, budget=40)))
+    if small.get("flavor") and session_failure(ctx, dict(small, flavor={})) is not None:
+        small = dict(small, flavor={})
+    if small["init"].get("isolated") and session_failure(ctx, dict(small, init=dict(small["init"], isolated=[]))) is not None:
+        small = dict(small, init=dict(small["init"], isolated=[]))
+    return small
+
+
+def run_sessions(ctx, sessions, tag):
+    if not sessions or len(ctx.violations) >= 5:
+        return
+    runs = []
+    for sess in sessions:
+        obs = exec_session(sess)  # generated sessions are valid: an exception here is a harness defect
+        runs.append((sess, obs))
+        ctx.count(f"sessions[{tag}]")
+        ctx.count(f"session:kind={sess['kind']}")
+    models = lean_models(ctx, [ob["net"] for _, obs in runs for ob in obs])
+    if models is None:
+        return
+    for sess, obs in runs:
+        for ob in obs:
+            if ob["enc"] is not None:
+                ctx.violation("network encoder and the implementation's bipartite view disagree in a session (harness assumption, not the property)",
+                              {"session": sess}, {"detail": ob["enc"], "step": ob["step"]}, no_input=True)
+                return
+            model = models[json.dumps(ob["net"], sort_keys=True)]
+            ci, cm = canon(ob["impl"]), canon(model)
+            ctx.count(f"session-queries[{tag}]")
+            ctx.count(f"session:method={ob['m']}")
+            ctx.count(f"session:opt={ob['opt']}")
+            ctx.count("session:gate=" + ("summary+linkage" if ob["linkage"] else "summary"))
+            if ob["reused"]:
+                ctx.count("session:analyzer reused after an edit")
+            if ob["same_shape"]:
+                ctx.count("session:analyzer reused after an edit keeping (n_species, n_reactions)")
+            if "error" in cm:
+                ctx.count("session:error:ValueError")
+            nontrivial = "error" not in cm and len(ob["net"]["reactions"]) >= 2 and cm["summary"]["n_complexes"] >= 3
+            ctx.case(["c19-session", ob["kind"], sess.get("flavor"), ob["opt"], ob["m"], ob["reused"], ob["net"]], nontrivial,
+                     sample={"stream": tag, "session": fmt_session(sess), "summary": cm.get("summary", cm)}
+                     if ob["reused"] and len(sess["steps"]) <= 6 else None)
+            df = diff(ci, cm, linkage=ob["linkage"])
+            if df is None:
+                continue
+            msg = spec_check(ctx, ob["desc"], ob["impl"], linkage=ob["linkage"], numbers_first=True)
+            if msg is None:
+                ctx.violation("correspondence C19: impl and model differ in a session although the specification holds",
+                              {"session": sess}, {"diff": df, "step": ob["step"], "stream": tag}, no_input=True)
+            else:
+                small = shrink_session(ctx, dict(sess, steps=sess["steps"][: ob["step"] + 1]))
+                f = session_failure(ctx, small)
+                fob = f[0] if f is not None else ob
+                if f is None:
+                    small = sess
+                fmsg = spec_check(ctx, fob["desc"], fob["impl"], linkage=fob["linkage"])
+                ctx.violation("complexes / linkage classes / weak reversibility / deficiency do not follow their definitions "
+                              "(analyzer state after a sequence of edits and calls)", {"session": small},
+                              {"spec": fmsg, "history": fmt_session(small), "failing_step": fob["step"],
+                               "network_at_failing_step": netio.fmt(fob["desc"]) + "".join(f" (+ isolated species {s})" for s in fob["desc"]["isolated"] if s not in _used(fob["desc"])),
+                               "impl": {k: (str(v) if k == "complexes" else v) for k, v in fob["impl"].items()},
+                               "definition": {k: str(v) for k, v in oracle(fob["desc"]).items() if k not in ("arcs",)},
+                               "stream": tag})
+            break  # one report per session
+        if len(ctx.violations) >= 5:
+            return
+
+
+# ---------------------------------------------------------------- session generators
+LABEL_POOLS = [list("ABCD"), list("ABC"), list("ABCDEF"), ["S1", "S10", "S2", "s1", "T"], ["X", "Y"]]
+FLAVORS = [{}, {}, {"mark": "kind"}, {"mark": "flag"}, {"float": True}, {"omit1": True}, {"intid": True},
+           {"nolabel": True}, {"mark": "flag", "omit1": True, "float": True}, {"intid": True, "mark": "kind", "omit1": True}]
+
+
+def rand_side(rnd, sp, desc=None):
+    if desc is not None and desc["reactions"] and rnd.random() < 0.4:  # an existing complex: linkage classes merge / split
+        r = rnd.choice(desc["reactions"])
+        return [list(e) for e in r[rnd.choice("rp")]]
+    k = rnd.choice([0, 1, 1, 1, 2, 2, 3])
+    return [[s, rnd.choice([1, 1, 1, 2, 3])] for s in rnd.sample(sp, min(k, len(sp)))]
+
+
+def rand_rxn(rnd, sp, desc, rid):
+    r, p = rand_side(rnd, sp, desc), rand_side(rnd, sp, desc)
+    if not r and not p:
+        p = [[rnd.choice(sp), 1]]
+    return {"id": rid, "rule": rnd.choice(["r", "r", "R1"]), "r": r, "p": p}
+
+
+def fresh_id(rnd, desc, k):
+    ids = {r["id"] for r in desc["reactions"]}
+    for cand in (f"r_{k}", f"x{k}", f"r_{k + 10}", f"a{k}"):
+        if cand not in ids and rnd.random() < 0.6:
+            return cand
+    i = 0
+    while f"e{i}" in ids:
+        i += 1
+    return f"e{i}"
+
+
+def gen_edit(rnd, kind, desc, pool, k):
+    """One edit (a list of ops without the "net" field) valid on `desc`; most keep (n_species, n_reactions)."""
+    rs = desc["reactions"]
+    used = sorted(_used(desc))
+    present = sorted(set(used) | set(desc["isolated"]))
+    choice = rnd.choice(["replace"] * 6 + ["reverse", "coef", "coef", "catalyst", "add", "add", "rm", "rm", "iso", "rmsp", "swap_id"])
+    if not rs:
+        choice = "add"
+    if choice == "replace":
+        r0 = rnd.choice(rs)
+        sp = used if rnd.random() < 0.75 else pool
+        if rnd.random() < 0.5:
+            return [{"op": "set", "rxn": rand_rxn(rnd, sp, desc, r0["id"])}]
+        new = rand_rxn(rnd, sp, desc, fresh_id(rnd, desc, k))
+        ops = [{"op": "rm", "id": r0["id"]}, {"op": "add", "rxn": new}]
+        return ops if rnd.random() < 0.7 else ops[::-1]
+    if choice == "reverse":
+        r0 = rnd.choice(rs)
+        return [{"op": "set", "rxn": dict(_copy_rxn(r0), r=[list(e) for e in r0["p"]], p=[list(e) for e in r0["r"]])}]
+    if choice == "coef":
+        r0 = _copy_rxn(rnd.choice(rs))
+        side = rnd.choice([s for s in ("r", "p") if r0[s]])
+        ent = rnd.choice(r0[side])
+        ent[1] = rnd.choice([c for c in (1, 2, 3) if c != ent[1]])
+        return [{"op": "set", "rxn": r0}]
+    if choice == "catalyst":  # same column of S, different complexes
+        r0 = _copy_rxn(rnd.choice(rs))
+        x = rnd.choice(present or pool)
+        for side in ("r", "p"):
+            ent = next((e for e in r0[side] if e[0] == x), None)
+            if ent is None:
+                r0[side].append([x, 1])
+            else:
+                ent[1] += 1
+        return [{"op": "set", "rxn": r0}]
+    if choice == "add":
+        return [{"op": "add", "rxn": rand_rxn(rnd, pool if rnd.random() < 0.5 or not used else used, desc, fresh_id(rnd, desc, k))}]
+    if choice == "rm":
+        return [{"op": "rm", "id": rnd.choice(rs)["id"]}]
+    if choice == "swap_id" and len(rs) >= 2:  # two reactions exchange their ids: same id set, same multiset of reactions
+        a, b = rnd.sample(rs, 2)
+        if kind == "hyper":
+            return [{"op": "rm", "id": a["id"]}, {"op": "rm", "id": b["id"]}, {"op": "add", "rxn": dict(_copy_rxn(b), id=a["id"])},
+                    {"op": "add", "rxn": dict(_copy_rxn(a), id=b["id"])}]
+        return [{"op": "set", "rxn": dict(_copy_rxn(b), id=a["id"])}, {"op": "set", "rxn": dict(_copy_rxn(a), id=b["id"])}]
+    if choice == "rmsp" and kind == "bip":
+        free = [s for s in desc["isolated"] if s not in used]
+        if free:
+            return [{"op": "rmsp", "sp": rnd.choice(free)}]
+    z = next((s for s in ["Z", "Q", "W"] + pool if s not in present), None)
+    return [{"op": "iso", "sp": z}] if z is not None else [{"op": "rm", "id": rnd.choice(rs)["id"]}]
+
+
+def random_init(rnd):
+    """-> (description, label pool for later edits)"""
+    if rnd.random() < 0.15:
+        d = parse(rnd.choice(TEXTBOOK)[1])
+        return {"reactions": d["reactions"], "isolated": []}, sorted(_used(d))
+    pool = rnd.choice(LABEL_POOLS)
+    d = {"reactions": [], "isolated": []}
+    for i in range(rnd.choice([1, 2, 2, 2, 3, 3, 4])):
+        d["reactions"].append(rand_rxn(rnd, pool, d, f"r_{i + 1}"))
+    if rnd.random() < 0.1:
+        d["isolated"] = ["Z"]
+    return d, pool
+
+
+def random_session(rnd):
+    import copy
+
+    kind = rnd.choice(["hyper", "hyper", "hyper", "bip", "bip"])
+    init, pool = random_init(rnd)
+    sess = {"kind": kind, "flavor": dict(rnd.choice(FLAVORS)) if kind == "bip" else {}, "init": init, "steps": []}
+    shadow = {"n0": copy.deepcopy(init)}
+    if kind == "bip":
+        shadow["n0"]["isolated"] = sorted(set(init["isolated"]) | _used(init))
+    ans = {}  # name -> (net, opt)
+    steps = sess["steps"]
+
+    def new_an(net):
+        name = f"a{len(ans)}"
+        opt = rnd.choice(["default"] * 5 + list(OPTS[1:]))
+        ans[name] = (net, opt)
+        steps.append({"op": "an", "name": name, "net": net, "opt": opt})
+        return name
+
+    def query(name, m=None):
+        opt = ans[name][1]
+        if m is None:
+            m = rnd.choice(["crn"] * 8 + ["summary"] * 3 + ["summary_linkage"] * 2 + ["linkage", "linkage", "one", "one", "peek", "peek", "crn_nd"])
+        if m == "crn_nd" and opt == "stoich_none":
+            m = "crn"
+        steps.append({"op": "q", "an": name, "m": m})
+
+    if rnd.random() < 0.85:
+        query(new_an("n0"), rnd.choice(["crn", "crn", "crn", "summary", "summary_linkage", "one", "linkage"]))
+    k = 0
+    for _ in range(rnd.choice([1, 2, 3, 3, 4, 5, 6, 8])):
+        x = rnd.random()
+        net = rnd.choice(sorted(shadow))
+        if x < 0.45 or not ans:
+            k += 1
+            for op in gen_edit(rnd, kind, shadow[net], pool, k):
+                op = dict(op, net=net)
+                apply_desc(kind, shadow[net], op)
+                steps.append(op)
+            if not ans or rnd.random() < 0.15:
+                new_an(net)
+            # the edit is looked at by somebody most of the time
+            cands = [a for a, (n, _) in ans.items() if n == net]
+            if cands and rnd.random() < 0.8:
+                query(rnd.choice(cands))
+        elif x < 0.8:
+            query(rnd.choice(sorted(ans)))
+        elif x < 0.9:
+            query(new_an(net))
+        elif len(shadow) < 3:
+            name = f"n{len(shadow)}"
+            shadow[name] = copy.deepcopy(shadow[net])
+            steps.append({"op": "fork", "net": net, "as": name})
+            if rnd.random() < 0.7:
+                query(new_an(name))
+    for a in sorted(ans):  # every analyzer is asked for the full analysis of what its network has become
+        if rnd.random() < 0.9:
+            query(a, "crn")
+    return sess
+
+
+def replace_session(rnd, full, small):
+    """Fixed form: analyse {x, y}, turn the network into {x, z} (same id or a new one), analyse again with the same
+    analyzer; x, y, z from the exhaustive 3-species reaction tables, so (n_species, n_reactions) often stays."""
+    tab = small if rnd.random() < 0.7 else full
+    x, y, z = (dict(tab[i]) for i in rnd.sample(range(len(tab)), 3))
+    kind = rnd.choice(["hyper", "bip"])
+    init = {"reactions": with_ids([x, y]), "isolated": []}
+    rid = rnd.choice(["r_2", "r_2", "r_3", "r_0"])
+    new = {"id": rid, "rule": "r", "r": z["r"], "p": z["p"]}
+    edit = [{"op": "set", "net": "n0", "rxn": new}] if rid == "r_2" else [{"op": "rm", "net": "n0", "id": "r_2"}, {"op": "add", "net": "n0", "rxn": new}]
+    first = rnd.choice(["crn", "crn", "summary", "summary_linkage", "one"])
+    second = rnd.choice(["crn", "crn", "crn", "summary", "summary_linkage"])
+    return {"kind": kind, "flavor": {}, "init": init,
+            "steps": [{"op": "an", "name": "a0", "net": "n0", "opt": "default"}, {"op": "q", "an": "a0", "m": first}] + edit
+            + [{"op": "q", "an": "a0", "m": second}, {"op": "q", "an": "a0", "m": "crn"}]}
+
+
 def load_regress():
     d = ROOT / "regress" / "C19"
     return [json.loads(f.read_text()) for f in sorted(d.glob("*.json"))] if d.exists() else []
@@ -374,6 +1048,9 @@ def run(ctx):
         "exact rational rank (fractions) in harness/props/c19.py; NumPy matrix_rank only as the implementation's own number, compared with the exact rank",
         "modelled: _complex_vectors, compute_summary, _is_weakly_reversible, _linkage_class_stoich_rank (its column set), compute_linkage_deficiencies; "
         "not modelled: deficiency-zero/one checks built on these numbers, regularity, nondegeneracy test",
+        "sessions: the harness's own bookkeeping of the edited network (apply_desc; checked against the implementation's bipartite view of the "
+        "live object at every gated query) and of which analyzer state the call protocol makes current (summary gated when the last successful "
+        "compute_summary ran on the current network version, per-class list when the last compute_linkage_deficiencies used that complex graph)",
     ]
     ctx.assumptions = [
         "the network is given as a CRNHyperGraph (distinct species labels, distinct reaction ids, positive integer coefficients)",
@@ -385,12 +1062,20 @@ def run(ctx):
         "3-cycle, Lotka-Volterra, a two-class deficiency-one network); ALL networks over {A,B,C} with one reaction with coefficients in {0,1,2} (728); "
         "quick: all unordered pairs of reactions whose sides have coefficient sum <= 2 (4851) + 3000 random pairs from the full space; thorough: "
         "all unordered pairs from the full {0,1,2} space up to species permutation, and 25000 random triples; random networks <= 6 species / "
-        "<= 7 reactions with shared complexes, catalysts, empty sides, reverse reactions, isolated species, coefficients <= 3.")
-    ctx.nontrivial_rule = "no error, >= 2 reactions and >= 3 complexes; distinct as JSON values"
+        "<= 7 reactions with shared complexes, catalysts, empty sides, reverse reactions, isolated species, coefficients <= 3. "
+        "Sessions: (session-replace, 300 quick / 4000 thorough) analyse {x, y}, replace y by z in place (same id or a new id), analyse again "
+        "with the same analyzer, x, y, z from the 3-species tables, hypergraph or bipartite DiGraph; (session-random, 500 / 6000) 1-4 initial "
+        "reactions or a textbook network, 1-8 rounds of {edit (replace / reverse / coefficient / catalyst / add / remove / isolated species / "
+        "exchange ids), query (crn 8 : summary 3 : summary+linkage 2 : linkage 2 : deficiency-one 2 : accessors 2 : crn+nondegeneracy 1), new "
+        "analyzer with options default 5 : stoich_fn=None : stoich_fn returning lists : custom rank_fn, copy of the network}, final full analysis "
+        "by every analyzer; 40 % bipartite DiGraphs in 10 attribute spellings; label pools incl. S1/S10/S2/s1. One case = one gated query.")
+    ctx.nontrivial_rule = ("no error, >= 2 reactions and >= 3 complexes; distinct as JSON values (session queries: distinct by network, "
+                           "graph spelling, analyzer option, method and whether the analyzer was reused after an edit)")
     build_and_audit_scoped(ctx, "SynKitProofs.Props.C19", "SynKitProofs/Audit/C19.lean", THEOREMS)
 
     reg = [c["case"] if "case" in c else c for c in load_regress()]
-    run_cases(ctx, [c["desc"] for c in reg], "regress")
+    run_cases(ctx, [c["desc"] for c in reg if "desc" in c], "regress")
+    run_sessions(ctx, [c["session"] for c in reg if "session" in c], "regress")
     ctx.count("regress_cases", len(reg))
     if ctx.violations:
         ctx.obligation("correspondence: regression inputs", False)
@@ -436,9 +1121,18 @@ def run(ctx):
     if not ctx.violations:
         run_cases(ctx, [random_desc(rnd) for _ in range(1500 if ctx.quick else 15000)], "random")
         run_cases(ctx, [{"reactions": [], "isolated": ["A"]}, {"reactions": []}], "empty")
+    if not ctx.violations:
+        # hidden state / options / rare spellings: analyzers reused across edits and calls (see "sessions" above)
+        run_sessions(ctx, [replace_session(rnd, full, small) for _ in range(300 if ctx.quick else 4000)], "session-replace")
+    if not ctx.violations:
+        run_sessions(ctx, [random_session(rnd) for _ in range(500 if ctx.quick else 6000)], "session-random")
     ctx.obligation("correspondence: complexes, complex graph, linkage classes, weak reversibility, n/l/rank/delta, per-class deficiencies == model; "
-                   "reported rank == exact rank; delta >= 0 and sum(delta_l) <= delta with exact ranks", not ctx.violations)
+                   "reported rank == exact rank; delta >= 0 and sum(delta_l) <= delta with exact ranks; the same for analyzers reused across "
+                   "in-place edits, repeated / reordered calls, constructor options and bipartite-graph spellings (sessions)", not ctx.violations)
 
 
 def replay(ctx, case):
+    if "session" in case["case"]:
+        run_sessions(ctx, [case["case"]["session"]], "replay")
+        return
     run_cases(ctx, [case["case"]["desc"] if "desc" in case["case"] else case["case"]], "replay")
